@@ -370,6 +370,15 @@ func runVDAF[M, A, AggShare, InputShare, OutShare, PrepShare, PrepState any](
 			var st *PrepState
 			var ps *PrepShare
 			var err error
+			// misconfiguration: an aggregator numbered past the last one (ids are 0..shares-1)
+			if ri == 0 && i == shares-1 && shares < 255 {
+				var e2 error
+				if pan, _, _ := core.Try(func() { _, _, e2 = v.PrepInit(&vk, &n, uint8(shares), *pubR, *inR) }); !pan && e2 == nil {
+					run.Violate(comp+".PrepInit", "accepts-aggregator-id-out-of-range", "%d aggregators (ids 0..%d): PrepInit with aggregator id %d returns no error", shares, shares-1, shares)
+					return
+				}
+				run.Fault("misconfig:aggregator-id-out-of-range")
+			}
 			pan, pv, stk := core.Try(func() { st, ps, err = v.PrepInit(&vk, &n, uint8(i), *pubR, *inR) })
 			if pan {
 				run.Violate(comp+".PrepInit", core.PanicClass(pv), "report %d aggregator %d fault %q: %s at %s", ri, i, fault, pv, stk)
